@@ -4,6 +4,8 @@ from . import rules_select as RS
 from . import rules_guard as RG
 from . import rules_unsafe as RU
 from . import rules_effect as RE
+from . import rules_extrema as RX
+from . import rules_skipnan as RK
 from .facts import AnchorMissing
 
 TRUSTED = [
@@ -147,4 +149,56 @@ def c03(ctx):
     )
 
 
-PROPS = {"C20": c20, "C16": c16, "C17": c17, "C04": c04, "C03": c03}
+def c05(ctx):
+    prog = ctx.prog("dev")
+    only = {("QuantileExt", n) for n in ("argmin", "argmax", "min", "max")}
+    n, e = RG.rule_r6(ctx, prog, only=only)
+    ctx.floor("R6", n, 4, "extremum routines in the decision table")
+    RG.rule_from_impls(ctx, prog)
+    RX.rule_r7_plain(ctx, prog)
+    nd = RX.rule_r7_direction(ctx, prog, RX.PLAIN)
+    ctx.floor("R7", nd, 4, "direction table rows")
+    RL.rule_r1(ctx, prog, scope=lambda b: "quantile::QuantileExt" in b.key)
+    return dict(
+        level="other",
+        explanation="Structural clauses of C05 decided on MIR for argmin/argmax/min/max: (R6) the first decision is emptiness of the whole "
+                    "receiver and yields EmptyInput (via From<EmptyInput> for MinMaxError, whose body is checked); (R7) every comparison "
+                    "between elements is partial_cmp whose None becomes UndefinedOrder through `?` (no lt/le/gt/ge on elements), the scan "
+                    "visits the whole receiver (no skip/take: a NaN in first position is compared too), the replacement predicate is "
+                    "'new < best' for the min forms and 'new > best' for the max forms (arg and value form agree), and the arg forms update "
+                    "index and value together from one indexed_iter item and return that index. Not decided: that the scan result is "
+                    "extremal for all value patterns (needs transitivity over runtime values).",
+    )
+
+
+def c14(ctx):
+    prog = ctx.prog("dev")
+    n = RK.rule_r15(ctx, prog)
+    ctx.floor("R15", n, 4, "skip-NaN traversals")
+    RK.rule_lane_forms(ctx, prog)
+    nd = RX.rule_r7_direction(ctx, prog, RX.SKIPNAN)
+    ctx.floor("R7", nd, 4, "direction table rows (skip-NaN extrema)")
+    only = {("QuantileExt", "argmin_skipnan"), ("QuantileExt", "argmax_skipnan"), ("QuantileExt", "quantile_axis_skipnan_mut")}
+    RG.rule_r6(ctx, prog, only=only)
+    roots = [b for b in all_roots(prog) if "maybe_nan::MaybeNanExt" in b.key or b.name.endswith("skipnan") or b.name.endswith("skipnan_mut")]
+    ns = RL.rule_r8(ctx, prog, roots)
+    ctx.floor("R8", ns, 4, "axis arguments in skip-NaN routines")
+    n2 = RU.rule_r2(ctx, prog)
+    ctx.floor("R2", n2, 3, "from_shape_ptr sites")
+    impls = [b for b in prog.bodies.values() if b.name == "remove_nan_mut" and " as maybe_nan::MaybeNan>" in b.key]
+    for b in impls:
+        ok, detail = RU.audit_unsafe(prog, b, "remove_nan_mut")
+        ctx.ob("R3", "%s/strip-sound" % RL.short(b.key), ok, b.where(), detail, what="stripped lane unsound")
+    return dict(
+        level="other",
+        explanation="Structural clauses of C14: (R15) in fold_skipnan/indexed_fold_skipnan/visit_skipnan/fold_axis_skipnan the ndarray "
+                    "traversal covers the whole receiver and its closure calls the user function exactly once, on the Some branch of "
+                    "try_as_not_nan(item), with that value (and the item's index), returning the accumulator unchanged otherwise; "
+                    "lane forms are map_axis_mut(axis, f ∘ remove_nan_mut) and 'strip, empty ⇒ missing value, else the plain quantile "
+                    "with the caller's q and strategy'; (R7) comparator direction of the four skip-NaN extrema; (R6) EmptyInput iff the "
+                    "fold result is None, q validated before emptiness; (R8) axis passed through; (R2/R3) stripped lanes are sound views "
+                    "for every stride. Not decided: value equality with the filtered plain operation (composition with C01/C05).",
+    )
+
+
+PROPS = {"C14": c14, "C05": c05, "C20": c20, "C16": c16, "C17": c17, "C04": c04, "C03": c03}
